@@ -35,6 +35,14 @@ def _strategy(shapes):
                 "prior": draw(gen.measure_params("pdf", 1, Dx, kappa)),
                 "x": draw(gen.arr((Np, Dx), -2.5, 2.5)), "y": draw(gen.arr((No, Dy), -2.5, 2.5)),
                 "idx": draw(gen.index_array(No, 1, 3))}
+        # large common offset of y and b (e.g. time stamps, map coordinates): the likelihood only depends on y - b
+        shift = draw(st.sampled_from([0.0, 0.0, 0.0, 0.0, 1e3, 1e5]))
+        case["shift"] = shift
+        if shift and kind in ("full", "diag"):
+            case["c"]["b"] = np.asarray(case["c"]["b"], float) + shift
+            case["y"] = np.asarray(case["y"], float) + shift
+        else:
+            case["shift"] = 0.0
         return case
     return s()
 
@@ -84,7 +92,9 @@ def _run(case):
         judge(tag + ":likelihood", got, want, scale, 1)
     # identity cond.set_y(y)(x) == cond(x)(y) through the library
     ok, d = lib(fails, tag + ":cond(x)", lambda: c(J(x), **kw))
-    if ok and Rc == 1:
+    # (with a large common offset the density cond(x) is evaluated in information form at |y| >> sd: its natural scale is
+    #  then |y|^2/sd^2, so this identity is only judged without the offset)
+    if ok and Rc == 1 and not case.get("shift"):
         ok, ev = lib(fails, tag + ":cond(x)(y)", lambda: d.evaluate_ln(J(y)))  # [Np, No]
         if ok:
             check(fails, tag + ":cond(x)(y)_reference", np.asarray(ev).T, want, scale)
@@ -140,7 +150,7 @@ def _nontrivial(case):
 
 
 def _labels(case):
-    return [f"kind={case['kind']}", "paired" if case["Rc"] > 1 else "broadcast", "Dx!=Dy" if case["Dx"] != case["Dy"] else "Dx=Dy", f"No={case['No']}"]
+    return [f"kind={case['kind']}", "paired" if case["Rc"] > 1 else "broadcast", "Dx!=Dy" if case["Dx"] != case["Dy"] else "Dx=Dy", f"No={case['No']}", f"shift={case.get('shift', 0.0):g}"]
 
 
 SUBS = [
